@@ -148,3 +148,61 @@ type condFact struct {
 func isZeroIntConst(k *ssa.Const) bool {
 	return k != nil && k.Value != nil && k.Value.Kind() == constant.Int && constant.Sign(k.Value) == 0
 }
+
+// everyPathThroughEdge: every path from the loop header (exclusive of paths leaving the loop) to block b passes an
+// edge p→q whose branch condition, with the truth value of that edge, satisfies just. This is the disjunctive form of
+// "b is dominated by a justifying edge": `if A || B { b }` is entered by two edges, neither of which dominates b.
+func everyPathThroughEdge(L *loop, b *ssa.BasicBlock, just func(condFact) bool) bool {
+	memo := map[*ssa.BasicBlock]int{} // 1 = in progress / assumed fine (cycles inside the iteration), 2 = ok, 3 = not
+	var ok func(x *ssa.BasicBlock) bool
+	ok = func(x *ssa.BasicBlock) bool {
+		switch memo[x] {
+		case 1, 2:
+			return true
+		case 3:
+			return false
+		}
+		if x == L.Header || len(x.Preds) == 0 {
+			memo[x] = 3
+			return false
+		}
+		memo[x] = 1
+		res := true
+		for _, p := range x.Preds {
+			if !L.Body[p] {
+				res = false
+				break
+			}
+			edgeOK := false
+			if iff, isIf := p.Instrs[len(p.Instrs)-1].(*ssa.If); isIf {
+				for i, s := range p.Succs {
+					if s != x {
+						continue
+					}
+					cnd, v := iff.Cond, i == 0
+					for {
+						if u, isNot := cnd.(*ssa.UnOp); isNot && u.Op == token.NOT {
+							cnd, v = u.X, !v
+							continue
+						}
+						break
+					}
+					if just(condFact{cnd, v, p}) {
+						edgeOK = true
+					}
+				}
+			}
+			if !edgeOK && !ok(p) {
+				res = false
+				break
+			}
+		}
+		if res {
+			memo[x] = 2
+		} else {
+			memo[x] = 3
+		}
+		return res
+	}
+	return ok(b)
+}
